@@ -17,8 +17,8 @@ THEOREMS = [# (1) framework: any document type, any operations, any equivalence
             'layerchange_drops_hidden_refuted', 'setchar_alpha_locked_refuted', 'swap_loses_char_refuted',
             # (4) extension: the full document (palette, fonts, SAUCE, modes) and the remaining undo records
             'xeqv_is_equivalence', 'xeqv_observable', 'lift_sound', 'lift_undoable', 'undo_operations_sound_x', 'x_api_sound', 'x_undo_redo_history',
-            'known_setfont_witness', 'known_addfont_witness', 'known_fontslot_witness', 'known_sauce_size_witness',
-            'rowcol_exact_roundtrip', 'rowcol_not_invariant']
+            'setfont_before_fix_refuted', 'addfont_before_fix_refuted', 'fontslot_before_fix_refuted', 'resize_sauce_size_before_fix_refuted',
+            'rowcol_operations_sound', 'rowcol_cells', 'rowcol_before_fix_refuted', 'scroll_area_ud_sound', 'scroll_area_before_fix_refuted']
 SWEEP_LEMMAS = []
 TRUSTED = ['Coq 8.16.1 kernel + vm_compute (model evaluation); no axioms (Print Assumptions: closed)',
            'translator/gen_undo.py + vlib/rustsrc.py: guard-expression translator and the statement templates that pin Layer::set_char/'
@@ -30,12 +30,9 @@ TRUSTED = ['Coq 8.16.1 kernel + vm_compute (model evaluation); no axioms (Print 
            'parameters the model takes from the implementation through harness probes (c08flip, c08flipf, c08probe): flip-x / flip-y character maps per font, '
            'DOS_DEFAULT_PALETTE, the font behind each ANSI font page / SAUCE font name (as an opaque id = hash of name, size, glyphs), ROTATE_TABLE; '
            'the theorems hold for EVERY value of these parameters',
-           'harness/src/c08.rs (snapshot comparer, history runner, minimiser) and props/c08.py (classification of failures)']
-UNMODELLED = ['per-operation soundness is NOT proved (stage S only: the oracle runs them on the real code) for: scroll_area_up/down over a PART of the layer '
-              'width (raw row splicing across rows, known finding C08-scroll-area-raw-lines; the model answers "outside" = Err 99 and the '
-              'case is skipped in stage C), add_floating_layer, update_layer_properties, paste_sixel, add_font / set_font with an arbitrary BitFont',
-              'insert/delete row and column are MODELLED and tied by stage C, but proved only as an exact round trip (rowcol_exact_roundtrip); they are not '
-              'invariant under the document equivalence (rowcol_not_invariant, known finding C08-rowcol-raw-lines) and therefore not part of x_undo_redo_history',
+           'harness/src/c08.rs (snapshot comparer, history runner, minimiser) and props/c08.py (signature of a failing minimised history; no known class is left)']
+UNMODELLED = ['per-operation soundness is NOT proved (stage S only: the oracle runs them on the real code) for: add_floating_layer, '
+              'update_layer_properties, paste_sixel, add_font / set_font with an arbitrary BitFont',
               'outside the model (Err 99, skipped by stage C, run by stage S): replace_font_usage / change_font_slot from font page 0 to another page '
               '(changes Layer::default_font_page, which the layer model fixes to 0); merge_layer_down of a cell with a TRANSPARENT_COLOR colour over a '
               'visible cell (Buffer::make_solid_color)',
@@ -50,7 +47,7 @@ ASSUMPTIONS = ['no i32 overflow in coordinate arithmetic (the model computes in 
 RULE = ('a case is one history: a document (buffer 6x4 .. 80x25; 1..3 layers with full/ragged/empty rows, offsets incl. negative, visible/hidden/locked/'
         'position-locked/alpha-locked/has-alpha flags, optional SAUCE record) and a sequence of public editing operations with in-range and boundary '
         'parameters (plus the controls caret / current layer / mirror mode). Stage S: a fixed list of directed histories (all repaired defects and '
-        'known classes), every history of length 1 and 2 (thorough: also 3) over a fixed alphabet of 70 parameterised operations, and seeded random '
+        'former known classes as regression cases), every history of length 1 and 2 (thorough: also 3) over a fixed alphabet of 70 parameterised operations, and seeded random '
         'histories of length <= 40; operations that do not report Ok are dropped with a restart; the oracle undoes everything (comparing after every '
         'step with the snapshot recorded when the undo stack had that length), redoes everything, walks randomly over undo/redo incl. the no-op ends, '
         'and checks that an edit after undos empties the redo stack. Stage C: documents with explicit raw rows (incl. content outside `size`) and '
@@ -58,7 +55,7 @@ RULE = ('a case is one history: a document (buffer 6x4 .. 80x25; 1..3 layers wit
         'after every step, histories that stop at a failing operation are re-run without it. Stage C, full document (props/c08x.py): the same '
         'documents plus ice / palette / font mode, SAUCE record (matching or not), extra font slots, caret font page; histories over the liftable layer '
         'operations and every operation of Model/DocOps.v (palette, SAUCE, fonts, modes, merge, stamp, paste with explicit cells, anchor, crop, resize with '
-        'layers, mask operations incl. enumerate_selections with a fixed callback, rotate, insert/delete row/column, whole-width scroll) with undo/redo; '
+        'layers, mask operations incl. enumerate_selections with a fixed callback, rotate, insert/delete row/column, scroll up/down over the whole and over part of the layer width) with undo/redo; '
         'compared on layers + palette + font table + SAUCE + modes + selection + mask after every step. Non-trivial = at least two operations applied.')
 
 CODE = {1: 'undo-err', 2: 'undo-panic', 3: 'undo-mismatch', 4: 'redo-err', 5: 'redo-panic', 6: 'redo-mismatch', 7: 'stack-length',
@@ -67,37 +64,11 @@ CAT = {1: 'buffer-size', 2: 'modes', 3: 'palette', 4: 'fonts', 5: 'sauce', 6: 'l
        9: 'layer-size', 10: 'offset', 11: 'cell'}
 
 # ---------------------------------------------------------------------------------------------------------------
-# known classes (known_findings.d/C08.json): decided on the MINIMISED history, each by the PRECONDITION of its defect.
-# `facts` = the bit set harness/src/c08.rs::facts computes while re-running the minimised history on the real code (the state-dependent
-# preconditions: the same predicates as the Coq known classes known_sauce_size / known_addfont / known_setfont / known_fontslot, and the
-# geometry of the scrolled area); the order-dependent precondition of the row/column class is read off the operation names.
-ROWCOL = {'insrow', 'delrow', 'inscol', 'delcol'}
-SCROLL = {'scrup', 'scrdown'}      # scroll_area_left / right are proved sound (Proofs/ScrollProofs.v): a failure there is a violation
-SETFONT = {'setfont', 'saucefont'}
-RESIZE = {'resize0', 'resize1', 'crop', 'croprect'}
-# records that store whole `lines` vectors / layer lists and put the STORED vectors back on redo (a stale shape)
-SNAPSHOT = {'palmode', 'ice', 'replfont', 'fontslot', 'remfont', 'rotate'}
-F_SCROLL_ONE_ROW, F_SCROLL_ROWS, F_SAUCE, F_ADDFONT, F_SETFONT, F_FONTSLOT = 1, 2, 4, 8, 16, 32
-
-def rowcol_then_snapshot(names):
-    """a row/column operation followed (later in the history) by an operation whose record re-imposes stored `lines` vectors"""
-    seen = False
-    for n in names:
-        if n in ROWCOL: seen = True
-        elif seen and n in SNAPSHOT: return True
-    return False
-
-def classify(code, cat, names, doc, facts=0):
-    """signature of a failing minimised history; a known signature only when the precondition of that defect holds on it"""
+# No known class is left (known_findings.d/C08.json: every entry is `fixed`): every failing minimised history is a VIOLATION.
+def classify(code, cat, names):
+    """signature of a failing minimised history: failure kind / category : the operations of the minimised history"""
     kind = CODE.get(code, 'code%d' % code)
-    ns = set(names)
-    if cat == 'sauce' and ns & RESIZE and facts & F_SAUCE: return 'C08-resize-rewrites-sauce-size'
-    if cat == 'fonts' and ns & SETFONT and facts & F_SETFONT: return 'C08-setfont-records-slot0'
-    if cat == 'fonts' and 'addfont' in ns and facts & F_ADDFONT: return 'C08-addfont-overwrites-slot'
-    if cat == 'fonts' and 'fontslot' in ns and facts & F_FONTSLOT: return 'C08-fontslot-overwrites-slot'
-    if cat in ('cell', 'layer-size', '') and rowcol_then_snapshot(names): return 'C08-rowcol-raw-lines'
-    if cat in ('cell', '') and ns & SCROLL and facts & F_SCROLL_ONE_ROW: return 'C08-scroll-area-raw-lines'
-    return 'C08-%s%s:%s' % (kind, ('/' + cat) if cat else '', '+'.join(sorted(ns)))
+    return 'C08-%s%s:%s' % (kind, ('/' + cat) if cat else '', '+'.join(sorted(set(names))))
 
 # ---------------------------------------------------------------------------------------------------------------
 # stage S
@@ -116,12 +87,16 @@ DIRECTED = [
     ('B 12 8 0 1 0 0 L 12 8 0 0 1 0 3 5', ['scrup', 'jleft']),
     ('B 12 8 0 1 0 0 L 12 8 0 0 1 0 2 5 L 6 4 2 1 17 0 2 9 P 1 0 0 0', ['clearl 1', 'transp']),
     ('B 6 4 0 1 0 0 L 6 2 1 1 16 0 3 21756 L 6 2 2 2 25 2 3 6951 L 6 2 -2 0 17 0 2 29405 P 2 0 5 0', ['stampdown']),
-    # witnesses of the known classes
+    # witnesses of the former known classes (all repaired: regression cases)
     ('B 12 8 0 1 0 2 L 12 8 0 0 1 0 2 5', ['resize 0 6 4']),
     ('B 12 8 0 1 3 0 L 12 8 0 0 1 0 2 5', ['addfont 0']),
     ('B 12 8 0 1 3 0 L 12 8 0 0 1 0 2 5', ['fontpage 2', 'setfont 1']),
     ('B 12 8 0 1 3 0 L 12 8 0 0 1 0 2 5 F 2 5 F 3 6', ['fontslot 2 3']),
     ('B 12 8 0 1 0 0 L 12 8 0 0 1 0 2 5', ['sel 2 1 5 2 0', 'scrup']),
+    ('B 12 8 0 1 0 0 L 12 8 0 0 1 0 2 5', ['sel 2 1 5 2 0', 'scrdown']),
+    ('B 12 8 0 1 0 0 L 12 8 0 0 1 0 2 5', ['sel 2 1 5 4 0', 'scrup', 'scrdown', 'scrdown', 'sel 0 3 3 4 0', 'scrup']),
+    ('B 12 8 0 1 0 2 L 12 8 0 0 1 0 2 5', ['croprect 1 1 6 4', 'resize 1 5 3', 'sauce 1 40 20', 'resize 0 9 9']),
+    ('B 12 8 0 1 3 0 L 12 8 0 0 1 0 2 5 F 2 5', ['fontpage 3', 'setfont 1', 'saucefont 1', 'addfont 2', 'addfont 2', 'fontslot 2 0', 'fontslot 0 3']),
     ('B 12 8 0 1 0 0 L 12 8 0 0 1 0 0 5', ['jleft', 'delcol', 'palmode 0']),
     # insert / delete row and column with HIDDEN content (rows and columns stored outside `size`): every stored row takes part in redo and undo
     ('B 80 25 0 1 0 0 L 80 25 0 0 1 0 2 7', ['lsize 0 80 20', 'inscol']),
@@ -191,11 +166,9 @@ def search(ctx, broken):
             continue
         code, step, nmin = v[0], v[1], v[2]
         idx = v[3:3 + nmin]; det = v[3 + nmin:]
-        facts = 0
-        if len(det) >= 2 and det[-2] == -777: facts = det[-1]; det = det[:-2]
         names = [G.op_name(ops[i]) for i in idx]
         cat = CAT.get(det[0], '') if code in (3, 6, 9, 10) and det else ''
-        sig = classify(code, cat, [n for n in names if n not in ('caret', 'cur', 'mirror')], doc, facts)
+        sig = classify(code, cat, [n for n in names if n not in ('caret', 'cur', 'mirror')])
         classes[sig] = classes.get(sig, 0) + 1
         failures.append({'signature': sig, 'input': hist_case(int(c.split()[1]), doc, [ops[i] for i in idx]),
                          'impl': v[:3] + det, 'expected': 'undo/redo restore the recorded snapshots',
@@ -408,24 +381,25 @@ LEVEL_TEXT = ('Machine-checked proof (Coq, closed under the global context), PAR
               '(2) Layer document (buffer size, layers with every stored cell): per-operation soundness and undo_redo_history for set_char (incl. mirror '
               'mode), swap_char, add/remove/raise/lower/duplicate/clear layer, toggle visibility, move layer, set layer size, resize buffer, selection '
               'set/clear/deselect, erase selection, make layer transparent, the nine row/column wrappers and ALL snapshot-frame area operations '
-              '(justify left/right, center, flip x/y), on the tree with six small fix commits. '
+              '(justify left/right, center, flip x/y), on the tree with twelve small fix commits. '
               '(3) Extension, FULL document (layer document + palette, font table, SAUCE record, ice/palette/font mode; caret font page and selection mask '
               'as extra state): everything of (2) is lifted, and per-operation soundness + the composed theorem x_undo_redo_history (every interleaving of '
-              'undo/redo after any history of modelled operations, each applied outside its known class) now also cover switch_to_palette, '
+              'undo/redo after any history of modelled operations; no known class is left) now also cover switch_to_palette, '
               'update_sauce_data, switch_to_font_page, set_ansi_font / set_sauce_font, add_ansi_font, remove_font, change_font_slot, replace_font_usage, '
               'set_ice_mode and set_palette_mode (for any conversion), merge_layer_down, anchor_layer, stamp_layer_down, paste_clipboard_data, '
               'resize_buffer with layers, crop, crop_rect, add_selection_to_mask, inverse_selection, enumerate_selections, clear/erase selection and the '
-              'wrappers reading the selection mask, flip x/y with the maps of the font table, rotate_layer, scroll_area_up/down over the whole layer '
-              'width, scroll_area_left/right. Where the code is wrong the theorem is stated outside a known class with a Coq witness inside it: set font in Unlimited/FixedSize mode '
-              'when the caret page differs from slot 0, add font / change font slot onto an occupied slot, resize/crop with a SAUCE record of another size. '
-              'Insert/delete row and column are modelled and proved as an exact round trip only (they are not invariant under the equivalence: witness). '
-              '(4) NOT proved (oracle on the real code only): scroll_area_up/down over part of the layer width, add_floating_layer, '
-              'layer properties, sixels; five + one known defect classes are listed as known findings.')
+              'wrappers reading the selection mask, flip x/y with the maps of the font table, rotate_layer, scroll_area_up/down (whole layer width and '
+              'part of it), scroll_area_left/right, insert/delete row and column. The six former known classes (set font recording slot 0, add font / '
+              'change font slot onto an occupied slot, resize/crop with a SAUCE record of another size, row/column undo on the raw shape of `lines`, '
+              'one-row scroll area) were repaired by fix commits; the theorems carry no exclusion any more and a `*_before_fix_refuted` theorem per '
+              'repaired record shows the old behaviour on a witness. '
+              '(4) NOT proved (oracle on the real code only): add_floating_layer, layer properties, sixels, fonts given as arbitrary BitFont values. '
+              'No known finding is left for this property.')
 LEVEL_NOTE = ('Trusted: Coq kernel + vm_compute; translator/gen_undo.py (guard expressions of Layer::set_char/restore_char/can_set_char/get_char and '
               'AtomicUndoGuard::drop are translated, the statement skeletons of the layer primitives and of the undo machinery in editor/mod.rs are '
               'pinned token for token); the hand-written operation models (layer document and full document), tied by differential traces on raw layer content, palette, fonts, '
               'SAUCE, modes, selection and mask after every step; parameters read from the implementation by probes (flip maps per font, DOS palette, font ids, '
               'rotate table) over which the theorems quantify; '
-              'the stage S oracle and its classification of failing minimised histories into known classes. Model arithmetic is in Z (no i32 overflow).')
+              'the stage S oracle (every failing minimised history is a violation: no known class is left). Model arithmetic is in Z (no i32 overflow).')
 TECHNIQUE = ('Coq proof: greatest-fixpoint soundness relation for undo records (explicit invariant pair), zipper invariant by induction over the '
              'interleaving, observational congruence of every layer primitive; translator tie for guards; differential traces; oracle on the real code')
